@@ -578,6 +578,339 @@ def callback_escapes(ctx, d, exe=None):
                 "a stale C frame" if model_stale else "a clean run", "misbehaves" if code_stale else "runs cleanly"))
 
 
+# ------------------------------------------------------------------------------------------------ forced collections
+# "a continuation resumes with the stack contents it captured" also has to hold when a collection happens at ANY
+# allocation between capture and re-entry: the saved stack copy, its holder vector, the continuation procedure, the
+# wind points of dynamic-wind, the parameter / handler conses, the (%values ..) lists passed through a continuation
+# are all heap objects that the opcodes and primitives have to keep rooted while they allocate the next one.  Ordinary
+# runs collect at a handful of fixed allocations, so a root lost across ONE allocation is practically invisible.  This
+# stream runs control scripts one per process on the `asan` build (free chunks are poisoned) under the forced
+# collection schedules of the /repo hooks (gc.c "verification hooks": CHIBI_VERIF_GC / CHIBI_VERIF_GC_START), with
+# the schedule starting exactly at the first allocation of the script's RUN (not its compilation):
+#   program = imports; (define (run) <script>); marker; (run); marker; print        marker = an allocation of a size
+#   nothing else uses, found in the allocation log (CHIBI_VERIF_TRACE) of an unforced calibration run.
+# every:1 from the first allocation of the run = a collection before EVERY allocation of the run (it contains every
+# single-collection schedule at:k of the region); every:2 / every:3 / seeded schedules vary which objects survive.
+# Output must equal the machine's trace (= the unforced trace), ASan must stay silent, rc 0; with
+# CHIBI_VERIF_AUDIT=1 (subset) no reachable object may point into a free chunk after any sweep.
+GC_MARK = 77001
+GC_ASAN = "detect_leaks=0:abort_on_error=0:exitcode=97:detect_odr_violation=0"
+GC_EMIT = ("(define (emit-num n) (if (< n 0) (begin (write-char #\\-) (emit-num (- 0 n))) (begin (if (>= n 10) (emit-num (quotient n 10))) "
+           "(write-char (integer->char (+ 48 (remainder n 10))))))) "
+           "(define (emit l) (write-char #\\() (let lp ((l l) (first #t)) (if (pair? l) (begin (if (not first) (write-char #\\space)) "
+           "(emit-num (car l)) (lp (cdr l) #f)))) (write-char #\\)))")
+
+
+def gc_program(run_expr, imports="(scheme base)"):
+    """run_expr evaluates to a list of integers; printing allocates (almost) nothing, so a dense schedule started at
+    the run's first allocation ends a few allocations after the run"""
+    return ("(import %s)\n%s\n(define verif-m0 (make-bytevector %d 0))\n(define (run) %s)\n"
+            "(let* ((m1 (make-bytevector %d 0)) (r (run)) (m2 (make-bytevector %d 0))) (emit r) (newline))\n" % (
+                imports, GC_EMIT, GC_MARK, run_expr, GC_MARK, GC_MARK))
+
+
+# control programs outside the DSL (multiple values through continuations, generators re-entered many times, deep
+# stacks copied by call/cc, continuations applied with apply, converters of parameters, error objects) with the
+# result R7RS prescribes.  (name, run expression, expected list)
+GC_EXTRAS = [
+    ("values-through-continuation",
+     "(let ((tr (list)) (k #f) (n 0)) (define (push! v) (set! tr (cons v tr))) "
+     "(call-with-values (lambda () (call-with-current-continuation (lambda (c) (set! k c) (values 1 2)))) (lambda (a b) (push! a) (push! b))) "
+     "(if (< n 2) (begin (set! n (+ n 1)) (k (+ 10 n) (+ 20 n)))) (reverse tr))",
+     [1, 2, 11, 21, 12, 22]),
+    ("values-escape-through-winds",
+     "(let ((tr (list))) (define (push! v) (set! tr (cons v tr))) "
+     "(call-with-values (lambda () (call-with-current-continuation (lambda (k) (dynamic-wind (lambda () (push! 1)) "
+     "(lambda () (dynamic-wind (lambda () (push! 2)) (lambda () (k 7 8 9)) (lambda () (push! 3)))) (lambda () (push! 4)))))) "
+     "(lambda (a b c) (push! a) (push! b) (push! c))) (reverse tr))",
+     [1, 2, 3, 4, 7, 8, 9]),
+    ("apply-continuation",
+     "(let ((tr (list)) (k #f) (n 0)) (define (push! v) (set! tr (cons v tr))) "
+     "(push! (+ 100 (call-with-current-continuation (lambda (c) (set! k c) 1)))) "
+     "(if (< n 3) (begin (set! n (+ n 1)) (apply k (list (* n 10))))) (reverse tr))",
+     [101, 110, 120, 130]),
+    ("generator-tree-walk",
+     "(let ((tr (list)) (ret #f) (resume #f)) (define (push! v) (set! tr (cons v tr))) "
+     "(define (walk n) (if (> n 0) (dynamic-wind (lambda () (push! (+ 100 n))) "
+     "(lambda () (call-with-current-continuation (lambda (c) (set! resume c) (ret n))) (+ 1 (walk (- n 1)))) "
+     "(lambda () (push! (+ 200 n)))) 0)) "
+     "(define (next) (call-with-current-continuation (lambda (r) (set! ret r) (if resume (resume 0) (begin (walk 4) (ret 0)))))) "
+     "(let lp ((i 0)) (if (< i 5) (begin (push! (next)) (lp (+ i 1))))) (reverse tr))",
+     [104, 204, 4, 104, 103, 203, 204, 3, 104, 103, 102, 202, 203, 204, 2, 104, 103, 102, 101, 201, 202, 203, 204, 1,
+      104, 103, 102, 101, 201, 202, 203, 204, 0]),
+    ("deep-stack-capture",
+     "(let ((tr (list)) (k #f) (n 0)) (define (push! v) (set! tr (cons v tr))) "
+     "(define (sum i) (if (= i 0) (call-with-current-continuation (lambda (c) (set! k c) 0)) (+ i (sum (- i 1))))) "
+     "(let ((v (sum 300))) (push! v)) (if (< n 2) (begin (set! n (+ n 1)) (k n))) (reverse tr))",
+     [45150, 45151, 45152]),
+    ("coroutine-ping-pong",
+     "(let ((tr (list)) (other #f) (done #f)) (define (push! v) (set! tr (cons v tr))) "
+     "(define (transfer v) (call-with-current-continuation (lambda (me) (let ((o other)) (set! other me) (o v))))) "
+     "(define (worker base) (lambda (v) (let lp ((i 0) (v v)) (push! (+ base i)) (if (< i 3) (lp (+ i 1) (transfer i)) (done 0))))) "
+     "(call-with-current-continuation (lambda (d) (set! done d) (set! other (worker 20)) ((worker 10) 0))) (reverse tr))",
+     [10, 20, 11, 21, 12, 22, 13]),
+    ("parameter-converter-reentry",
+     "(let ((tr (list)) (k #f) (n 0) (p (make-parameter 1 (lambda (x) (* x 2))))) (define (push! v) (set! tr (cons v tr))) "
+     "(parameterize ((p 5)) (dynamic-wind (lambda () (push! (p))) (lambda () (call-with-current-continuation (lambda (c) (set! k c))) (push! (+ 100 (p)))) "
+     "(lambda () (push! (+ 200 (p)))))) (push! (p)) (if (< n 2) (begin (set! n (+ n 1)) (k 0))) (reverse tr))",
+     [10, 110, 210, 2, 10, 110, 210, 2, 10, 110, 210, 2]),
+    ("error-object-through-handlers",
+     "(let ((tr (list)) (k #f) (n 0)) (define (push! v) (set! tr (cons v tr))) "
+     "(push! (guard (e ((error-object? e) (push! (length (error-object-irritants e))) (car (error-object-irritants e)))) "
+     "(dynamic-wind (lambda () (push! 1)) (lambda () (call-with-current-continuation (lambda (c) (set! k c))) (error \"boom\" (+ 40 n) 2 3)) (lambda () (push! 2))))) "
+     "(if (< n 2) (begin (set! n (+ n 1)) (k 0))) (reverse tr))",
+     [1, 2, 3, 40, 1, 2, 3, 41, 1, 2, 3, 42]),
+    ("primitive-error-object",
+     "(let ((tr (list)) (k #f) (n 0)) (define (push! v) (set! tr (cons v tr))) "
+     "(push! (guard (e ((error-object? e) (push! (if (string? (error-object-message e)) (if (> (string-length (error-object-message e)) 3) 1 0) 0)) "
+     "(if (pair? (error-object-irritants e)) (car (error-object-irritants e)) 0))) "
+     "(dynamic-wind (lambda () (push! 1)) (lambda () (call-with-current-continuation (lambda (c) (set! k c))) (vector-ref (vector 1 2) (car (+ 900 n)))) (lambda () (push! 2))))) "
+     "(if (< n 2) (begin (set! n (+ n 1)) (k 0))) (reverse tr))",
+     [1, 2, 1, 900, 1, 2, 1, 901, 1, 2, 1, 902]),
+    ("raise-continuable-values-reentry",
+     "(let ((tr (list)) (k #f) (n 0)) (define (push! v) (set! tr (cons v tr))) "
+     "(with-exception-handler (lambda (c) (call-with-current-continuation (lambda (h) (if (not k) (set! k h)) (+ c 1)))) "
+     "(lambda () (push! (+ 10 (raise-continuable 1))) (push! (+ 20 (raise-continuable 2))))) "
+     "(if (< n 2) (begin (set! n (+ n 1)) (k (* 100 n)))) (reverse tr))",
+     [12, 23, 110, 23, 210, 23]),
+]
+
+
+def _gc_run(d, path, extra, timeout=120):
+    """one process of the asan build; returns (stdout, rc, stderr)"""
+    import subprocess
+    env = B.chibi_env(d, dict(extra, ASAN_OPTIONS=GC_ASAN))
+    for attempt in (0, 1):
+        try:
+            r = subprocess.run([os.path.join(d, "chibi-scheme"), path], capture_output=True, text=True, errors="replace",
+                               timeout=timeout * (1 + 2 * attempt), env=env)
+            return r.stdout.strip(), r.returncode, r.stderr
+        except subprocess.TimeoutExpired:
+            continue                                       # once more with three times the time (loaded machine)
+    return "TIMEOUT", "timeout", ""
+
+
+def _gc_calibrate(d, path):
+    """unforced run with the allocation log: allocation numbers (as counted by CHIBI_VERIF_GC) of the three markers"""
+    log = path + ".trace"
+    try:
+        out, rc, err = _gc_run(d, path, dict(CHIBI_VERIF_GC="at:1", CHIBI_VERIF_TRACE=log))
+        n, started, marks = 0, False, []
+        if os.path.exists(log):
+            with open(log) as fh:
+                for line in fh:
+                    c = line[0]
+                    if c == "A":
+                        if started:
+                            n += 1
+                            if line[2] == "7" and GC_MARK <= int(line.split()[1]) <= GC_MARK + 64:
+                                marks.append(n)
+                    elif c == "C" and not started and line.rstrip().endswith(" alloc=1"):
+                        started = True
+        return out, rc, err, marks, n
+    finally:
+        if os.path.exists(log):
+            os.unlink(log)
+
+
+def _gc_verdict(out, rc, err, want):
+    """None when the run is fine, else the class of the failure"""
+    if rc == "timeout":
+        return "timeout"
+    if "AddressSanitizer" in err or rc == 97:
+        return "asan"
+    if "VERIF-AUDIT FAIL" in err:
+        return "audit"
+    if rc != 0:
+        return "crash"
+    if out != want:
+        return "trace"
+    return None
+
+
+def _gc_replay_cmd(d, prog, env):
+    return ("f=$(mktemp /var/tmp/c06-gc-XXXXXX.scm); printf '%%s' %s > $f; env %s ASAN_OPTIONS=%s LD_LIBRARY_PATH=%s CHIBI_MODULE_PATH=%s/lib "
+            "CHIBI_IGNORE_SYSTEM_PATH=1 %s/chibi-scheme $f; echo rc=$?; rm -f $f" % (
+                shlex.quote(prog), " ".join("%s=%s" % kv for kv in sorted(env.items())), GC_ASAN, d, d, d))
+
+
+def gc_cases(ctx, exe, bodies):
+    """[(name, program text, expected output line, tokens or None)] for DSL bodies (expected = the machine's trace) and GC_EXTRAS"""
+    cases = []
+    if bodies:
+        scripts = [wrap(b) for b in bodies]
+        mo = ctx.run_model(exe, ["run %d %s" % (FUEL, " ".join(tokens(s))) for s in scripts], timeout=600)
+        for s, m in zip(scripts, mo):
+            if m.startswith("ERR"):
+                continue
+            stc, evs = parse_model(m)
+            if stc != 1:
+                continue
+            want = "(" + " ".join("%d %d" % e for e in evs) + ")"
+            cases.append((" ".join(tokens(s)), gc_program(program(s)), want))
+    for name, expr, want in GC_EXTRAS:
+        cases.append(("extra:" + name, gc_program(expr), None if want is None else "(" + " ".join(str(x) for x in want) + ")"))
+    return cases
+
+
+def gc_stream(ctx, exe, bodies, label="forced-gc", only_env=None):
+    import concurrent.futures, tempfile
+    t_start = time.time()
+    try:
+        da = ctx.build("asan")
+    except Exception:
+        return                                          # recorded by ctx.build (build:asan)
+    cases = gc_cases(ctx, exe, bodies)
+    tmpd = tempfile.mkdtemp(prefix="c06-gc-", dir=B.SCRATCH)
+    n_audit = 10 if not ctx.thorough else 80
+    seeds = [ctx.rng.randrange(1, 10 ** 6) for _ in cases]
+    stats = dict(runs=0, allocs=0, forced=0, region_max=0)
+    fails = []
+
+    nfail = [0]
+
+    def one(j):
+        name, prog, want = cases[j]
+        if nfail[0] >= 4:                               # the violation is established: do not run the rest
+            return j, want, [], 0, [], False
+        path = os.path.join(tmpd, "s%d.scm" % j)
+        with open(path, "w") as fh:
+            fh.write(prog)
+        res = []                                        # (env, verdict, out, rc, err)
+        out, rc, err, marks, total = _gc_calibrate(da, path)
+        if want is None:
+            want = out                                  # extras without a hand-computed result: the unforced trace
+        v = _gc_verdict(out, rc, err, want)
+        res.append((dict(), v, out, rc, err))
+        if v is not None:
+            nfail[0] += 1
+        if v is not None or len(marks) != 3:
+            return j, want, marks, total, res, (v is None)
+        m0, m1, m2 = marks
+        region = m2 - m1
+        scheds = []
+        if only_env is not None:
+            scheds = [only_env]
+        else:
+            dense = dict(CHIBI_VERIF_GC="every:1", CHIBI_VERIF_GC_START=str(m1))
+            if region <= (2500 if not ctx.thorough else 20000):
+                if j < n_audit:
+                    dense["CHIBI_VERIF_AUDIT"] = "1"
+                scheds.append(dense)
+            scheds.append(dict(CHIBI_VERIF_GC="every:%d" % (2 + j % 2), CHIBI_VERIF_GC_START=str(m1 + (j // 2) % 2)))
+            scheds.append(dict(CHIBI_VERIF_GC="seed:%d:%d" % (seeds[j], 2 + j % 3), CHIBI_VERIF_GC_START=str(m1)))
+            if ctx.thorough:
+                # the compilation of the script too (sparser: it is thousands of allocations), and other phases
+                scheds.append(dict(CHIBI_VERIF_GC="seed:%d:%d" % (seeds[j] + 1, 15), CHIBI_VERIF_GC_START=str(m0)))
+                scheds.append(dict(CHIBI_VERIF_GC="every:3", CHIBI_VERIF_GC_START=str(m1 + 2)))
+                scheds.append(dict(CHIBI_VERIF_GC="every:2", CHIBI_VERIF_GC_START=str(m1 + 1 - (j // 2) % 2)))
+                scheds.append(dict(CHIBI_VERIF_GC="seed:%d:%d" % (seeds[j] + 2, 4), CHIBI_VERIF_GC_START=str(m1)))
+        for env in scheds:
+            o, r, e = _gc_run(da, path, env)
+            v = _gc_verdict(o, r, e, want)
+            res.append((env, v, o, r, e))
+            if v is not None:
+                nfail[0] += 1
+                break
+        return j, want, marks, total, res, False
+
+    def bisect(j, want, marks, env_bad):
+        """smallest schedule we can find that still fails: one collection at:k, else every:1 from the latest start"""
+        name, prog, _w = cases[j]
+        path = os.path.join(tmpd, "s%d.scm" % j)
+        m1, m2 = marks[1], marks[2]
+
+        def bad(env):
+            o, r, e = _gc_run(da, path, env)
+            return _gc_verdict(o, r, e, want), o, r, e
+        lo, hi = m1, m2 + 40                              # invariant: every:1 from lo fails, from hi passes (assumed)
+        if bad(dict(CHIBI_VERIF_GC="every:1", CHIBI_VERIF_GC_START=str(lo)))[0] is None:
+            return env_bad, None
+        while hi - lo > 1:
+            mid = (lo + hi) // 2
+            if bad(dict(CHIBI_VERIF_GC="every:1", CHIBI_VERIF_GC_START=str(mid)))[0] is not None:
+                lo = mid
+            else:
+                hi = mid
+        # a collection before allocation `lo` is needed; is it enough?
+        for env in (dict(CHIBI_VERIF_GC="at:%d" % lo), dict(CHIBI_VERIF_GC="at:%d,%d" % (lo, lo + 1)),
+                    dict(CHIBI_VERIF_GC="at:%s" % ",".join(str(lo + i) for i in range(0, 60)))):
+            r = bad(env)
+            if r[0] is not None:
+                return env, r
+        return dict(CHIBI_VERIF_GC="every:1", CHIBI_VERIF_GC_START=str(lo)), None
+
+    try:
+        with concurrent.futures.ThreadPoolExecutor(max_workers=4) as ex:
+            results = list(ex.map(one, range(len(cases))))
+        nbis = 0
+        for j, want, marks, total, res, nomarks in results:
+            name, prog, _w = cases[j]
+            if nomarks:
+                _broken_once(ctx, "forced-gc:markers", "allocation markers not found in the allocation log of %s (%s): hooks missing?" % (name, marks))
+                continue
+            region = (marks[2] - marks[1]) if len(marks) == 3 else 0
+            stats["region_max"] = max(stats["region_max"], region)
+            stats["allocs"] += region
+            for env, v, o, r, e in res:
+                stats["runs"] += 1
+                ctx.count(1, key=("gc", name, tuple(sorted(env.items()))), nontrivial=bool(env) and region > 0)
+                ctx.cov["traces_validated_against_impl"] += 1
+                if v is None:
+                    continue
+                fails.append(name)
+                env_min, rr = env, None
+                if env and nbis < 3 and len(marks) == 3:
+                    nbis += 1
+                    env_min, rr = bisect(j, want, marks, env)
+                if rr is not None:
+                    v, o, r, e = rr
+                tail = [l for l in (e or "").split("\n") if "ERROR" in l or "SUMMARY" in l or "VERIF-AUDIT" in l or " #0 " in l or " #1 " in l][:6]
+                ctx.violation("control-gc:" + v, input=name, schedule=env_min, first_failing_schedule=env, program=prog,
+                              run_region_allocations=[marks[1], marks[2]] if len(marks) == 3 else None,
+                              expected=want, observed=dict(stdout=o[:400], rc=r, stderr=tail), stream=label,
+                              replay=_gc_replay_cmd(da, prog, env_min))
+        done = [r for r in results if r[4]]
+        if len(done) < len(results):
+            ctx.note("%s: stopped after %d of %d scripts (%d failing)" % (label, len(done), len(results), len(fails)))
+        if done:
+            j, want, marks, total, res, _n = done[len(done) // 2]
+            ctx.sample(dict(kind="forced-gc", script=cases[j][0], run_region=marks, allocations_total=total,
+                            schedules=[r[0] for r in res], output=res[-1][2][:300]))
+    finally:
+        import shutil
+        shutil.rmtree(tmpd, ignore_errors=True)
+    ctx.note("%s: %d scripts (%d DSL + %d extra), %d processes on the asan build, run regions %d allocations in all (max %d), %d failing; %.1fs" % (
+        label, len(cases), len(cases) - len(GC_EXTRAS), len(GC_EXTRAS), stats["runs"], stats["allocs"], stats["region_max"], len(fails), time.time() - t_start))
+
+
+def gc_bodies(ctx, m1, m2):
+    """DSL scripts for the forced-collection stream: every one captures AND invokes a continuation (or raises through
+    handlers/guards), inside winds / parameterize / handlers"""
+    rng = ctx.rng
+    out = list(corpus_bodies())
+    out += templates(rng)
+    def reenters(b):
+        hs = heads(b)
+        return ("callcc" in hs and "throw" in hs) or bool(hs & {"raisec", "raise"}) and bool(hs & {"handler", "guard"})
+    wc = [relabel(s) for n in range(4, 8) for s in enum_grammar(n, memo=m1, **WIND_CORE) if reenters(s)]
+    dc = [relabel(s) for n in range(3, 6) for s in enum_grammar(n, memo=m2, **DYN_CORE) if reenters(s)]
+    k = 1 if not ctx.thorough else 12
+    out += rng.sample(wc, min(len(wc), 14 * k))
+    out += rng.sample(dc, min(len(dc), 12 * k))
+    got = 0
+    while got < 8 * k:
+        b = gen_random(rng, rng.choice([8, 10, 12, 14, 18]), Fresh())
+        hs = heads(b)
+        if "callcc" in hs and "throw" in hs and hs & {"wind", "windp", "param", "handler", "guard"}:
+            out.append(b)
+            got += 1
+    if ctx.thorough:
+        for _ in range(10):
+            out += templates(rng)
+    return out
+
+
 # ------------------------------------------------------------------------------------------------ main
 def run_scripts(ctx, exe, d, bodies, label):
     """model first (only scripts the machine finishes are sent to chibi), then chibi; compare traces"""
@@ -805,6 +1138,8 @@ def run(ctx):
     for _ in range(2500 if not ctx.thorough else 40000):
         rnd.append(gen_random(rng, rng.choice([4, 6, 8, 10, 12, 14, 18, 22]), Fresh()))
     run_scripts(ctx, exe, d, rnd, "random")
+    if not getattr(ctx, "_c06_stop", False):
+        gc_stream(ctx, exe, gc_bodies(ctx, m1, m2))
     ctx.assume("escapes from inside a before/after thunk are excluded (R7RS leaves them unspecified); thunks only push trace symbols")
     ctx.assume("threads x continuations, and the behaviour of an exception nobody handles at the REPL top level, are outside this check")
     ctx.assume("errors detected by primitives ((car 999)) are signalled as non-continuable exceptions to the current handler (chibi's behaviour; R7RS only says 'it is an error')")
